@@ -1,7 +1,8 @@
 #!/usr/bin/env python3
 """usage: mk_meta.py <id> <property> <round-text> <summary> <needs> <file> <caught_by> <checks_run>"""
-import json, sys
+import json, sys, os
 i, p, rnd, summ, needs, f, cb, cr = sys.argv[1:9]
-origin = f"written by an independent sub-agent ({rnd}: given only the property text, the one-line summaries of the earlier changes and a scratch worktree of /repo at e0a9d89; asked for a different site or mechanism, rare and plausible)"
+base = os.environ.get("SEED_BASE", "e0a9d89")
+origin = f"written by an independent sub-agent ({rnd}: given only the property text, the one-line summaries of the earlier changes and a scratch worktree of /repo at {base}; asked for a different site or mechanism, rare and plausible)"
 conf = "re-run by me in the scratch worktree (tools/confirm_seeded.sh, log in confirm.log): with the change the whole existing suite passes and the demonstration fails; with the patch reversed the demonstration passes"
 json.dump({"property": p, "summary": summ, "needs": needs, "file": f, "origin": origin, "confirmed": conf, "caught_by": cb, "checks_run": cr}, open(f"/verif/seeded/{i}/meta.json", "w"), indent=1)
